@@ -75,8 +75,20 @@ class Fn:
             base = strip(n["inner"][0])
             if base.get("kind") == "CXXThisExpr":
                 return n["name"]
-            if base.get("kind") == "MemberExpr" and base.get("name") in ("d", "q"):
+            if base.get("kind") == "MemberExpr" and base.get("name") in ("d", "q") \
+                    and strip(base["inner"][0]).get("kind") == "CXXThisExpr":
                 return n["name"]
+        return None
+
+    def other_member(self, n):
+        """other.d->x (a parameter of the same class)  ->  x"""
+        n = strip(n)
+        if n.get("kind") == "MemberExpr":
+            base = strip(n["inner"][0])
+            if base.get("kind") == "MemberExpr" and base.get("name") == "d":
+                b2 = strip(base["inner"][0])
+                if b2.get("kind") == "DeclRefExpr" and b2.get("referencedDecl", {}).get("kind") == "ParmVarDecl":
+                    return n["name"]
         return None
 
     def expr(self, n, env):
@@ -100,6 +112,9 @@ class Fn:
         if k == "MemberExpr":
             m = self.member_name(n)
             if m is None:
+                om = self.other_member(n)
+                if om is not None:
+                    return "o." + ident(om)
                 raise Untranslatable("member expression")
             return env.get("d." + m, "s." + ident(m))
         if k == "UnaryOperator":
@@ -439,7 +454,21 @@ def main():
                 done.append("Range::Range(qint64,qint64,qint64)")
             except Untranslatable as e:
                 failed.append("Range::Range/3 (%s)" % e)
-        # copy-with-size constructor
+        # copy-with-size constructor Range(const Range &other, qint64 dataSize)
+        key = "Range/2"
+        if key in fns:
+            f = Fn(members=["from", "to", "dataSize"])
+            ps = params_of(fns[key])
+            try:
+                def fin2(env):
+                    return "{ frm := %s, to := %s, dataSize := %s }" % (env.get("d.from", "0"), env.get("d.to", "0"), env.get("d.dataSize", "0"))
+                env0 = {p: ident(p) + "_in" for p in ps if p != "other"}
+                body = f.stmts(f.flatten(body_of(fns[key])), env0, fin2)
+                out.append("/-- `Range::Range(const Range &other, qint64 dataSize)` -/\ndef ctorResize (o : St) (%s : Int) : St :=\n    %s\n"
+                           % (" ".join(ident(p) + "_in" for p in ps if p != "other"), body))
+                done.append("Range::Range(const Range&,qint64)")
+            except Untranslatable as e:
+                failed.append("Range::Range/2 (%s)" % e)
         out.append("end QhttpGen.Range\n")
         files["Range.lean"] = "\n".join(out)
     except Exception as e:
